@@ -215,14 +215,7 @@ func runC20(cx *CheckCtx) {
 		}
 		if ok {
 			// the counter continues from the stored one (0 only when there is none)
-			okCont := false
-			if v := pa.canonAt(cntPut, cntPut.Args[2]); v.Op == "sum" {
-				for _, x := range v.Args {
-					if x.Op == "phi" && v == pa.tb.binop(token.ADD, x, pa.tb.constInt(1), intType) && storedOrZero(pa, cntPut.In, x) {
-						okCont = true
-					}
-				}
-			}
+			okCont := storedPlusD(pa, cntPut.In, pa.canonAt(cntPut, cntPut.Args[2]), 1, cntPut.Args[1])
 			cx.decide(okCont, "put-get-key", "reputation.Put/counter", "the value counter is the stored counter + 1 (1 when there is none)", "reputation.Put does not continue the stored counter of the (epoch, peer): values overwrite each other", cntPut.Where(w))
 			cx.decide(executedAtEveryExit(pa, valPut, cntPut), "put-always", "reputation.Put", "every normal return has stored the value and the counter", "reputation.Put can return normally without storing the submitted value (or without advancing the counter: the next value overwrites it)", w.pos(pm.Fn.Pos()))
 		}
